@@ -331,7 +331,63 @@ def render_gen(t):
     return "\n".join(parts)
 
 
+GUARD_FILE = LEAN / "FunsorVerif" / "Gen" / "C15DtypeGuards.lean"
+
+
+def dtype_guards():
+    """AST of funsor/ops/array.py: every comparison on an operand's dtype inside a function ->
+    (registered op name, sorted kinds for which the special branch is taken)"""
+    src = (REPO / "funsor" / "ops" / "array.py").read_text()
+    tree = ast.parse(src)
+    kind_of_name = {"bool": "b", "bool_": "b", "int": "i", "int64": "i", "int32": "i", "uint8": "u", "float": "f",
+                    "float64": "f", "float32": "f"}
+    out = []
+    for fn in ast.walk(tree):
+        if not isinstance(fn, ast.FunctionDef):
+            continue
+        opn = fn.name.lstrip("_")
+        for dec in fn.decorator_list:
+            d = dec.func if isinstance(dec, ast.Call) else dec
+            if isinstance(d, ast.Attribute) and d.attr == "register" and isinstance(d.value, ast.Name):
+                opn = d.value.id
+        for node in ast.walk(fn):
+            if not isinstance(node, ast.Compare) or len(node.ops) != 1:
+                continue
+            left, right = node.left, node.comparators[0]
+            txt = ast.unparse(left)
+            if "dtype" not in txt or not isinstance(right, ast.Constant) or not isinstance(right.value, str):
+                continue
+            if txt.endswith(".dtype.kind") and isinstance(node.ops[0], (ast.In, ast.Eq)):
+                kinds = list(right.value)
+            elif txt.endswith(".dtype") and isinstance(node.ops[0], ast.Eq):
+                kinds = [kind_of_name.get(right.value, "other:" + right.value)]
+            else:
+                kinds = ["other:" + ast.unparse(node)[:40]]
+            out.append((opn, kinds, fn.lineno))
+    return out
+
+
+def render_guards(gs):
+    def k(c):
+        return f"Kind.{c}" if c in ("b", "i", "u", "f") else 'Kind.other "' + c.replace('"', "'") + '"'
+
+    def f(nm):
+        return f"GuardFn.{nm}" if nm in ("log", "safediv") else f'GuardFn.other "{nm}"'
+    rows = ",\n".join(f"  ({f(nm)}, [{', '.join(k(c) for c in kinds)}])" for nm, kinds, _ in gs)
+    return ("/- GENERATED by fv/harness/c15.py (extract) from funsor/ops/array.py — DO NOT EDIT.\n"
+            "   Every test on an operand's dtype (`x.dtype == \"…\"`, `x.dtype.kind in \"…\"`) inside a registered op\n"
+            "   implementation: (function, dtype kinds for which the special branch is taken). -/\n"
+            "import FunsorVerif.Model.C15\nnamespace FV.C15.Gen\nopen FV.C15\n\n"
+            "def dtypeGuards : List (GuardFn × List Kind) := [\n" + rows + "\n]\n\nend FV.C15.Gen\n")
+
+
 def extract(ctx):
+    gs = dtype_guards()
+    ctx.extra["dtype_guards"] = [dict(op=a, kinds=b, line=c) for a, b, c in gs]
+    gtxt = render_guards(gs)
+    if not GUARD_FILE.exists() or GUARD_FILE.read_text() != gtxt:
+        GUARD_FILE.write_text(gtxt)
+        ctx.count("extract:guards-rewritten")
     live = live_tables()
     opsdir = REPO / "funsor" / "ops"
     astt, sites = ast_tables([opsdir / "builtin.py", opsdir / "array.py", opsdir / "op.py"])
@@ -1273,6 +1329,107 @@ def dtype_grid(ctx, volume=1):
             if not same(gv, want):
                 ctx.fail("correspondence", f"C15.dtype-model:{name}:{dtn}", witness=dict(request=rq, model=an, impl=jv(gv), scalar=jv(s_), element=jv(e)),
                          expected=tok, got=jv(gv))
+
+
+# ---------------------------------------------------------------------------------------
+# (3c) unary ops on integer / bool arrays (ops enumerated from the registry)
+# ---------------------------------------------------------------------------------------
+
+def unary_registry():
+    """every elementwise unary op of funsor.ops that evaluates on a plain Python number"""
+    out = []
+    for nm in sorted(dir(ops)):
+        op = getattr(ops, nm, None)
+        if not isinstance(op, ops.UnaryOp) or isinstance(op, (ops.ReductionOp,)) or nm[0].isupper():
+            continue
+        if getattr(type(op), "arity", 1) != 1 or isinstance(op, ops.FinitaryOp):
+            continue
+        r = call(op, 2)
+        if is_exc(r) or not isinstance(r, (int, float, bool)):
+            r = call(op, 0.5)
+            if is_exc(r) or not isinstance(r, (int, float, bool)):
+                continue
+        out.append(nm)
+    return out
+
+
+def unary_dtype_stream(ctx):
+    """Scalar/array consistency of every unary op on int64/int32/uint8/bool data with values {0,1,2,3,7}: 0-d arrays,
+    numpy scalars, 1-d and 2-d arrays must equal the op's Python-scalar implementation entrywise (tolerance by
+    RESULT dtype: numpy computes transcendental functions of 8-bit data in float16); where the inverse clause
+    applies (`exp.inv is log`), exp(log(x)) = x."""
+    names = unary_registry()
+    ctx.extra["unary_registry"] = names
+    vals = [0, 1, 2, 3, 7]
+    dts = [np.int64, np.int32, np.uint8, np.bool_]
+    dtn = {np.int64: "np.int64", np.int32: "np.int32", np.uint8: "np.uint8", np.bool_: "np.bool_"}
+
+    def tol_of(dtype):
+        return {np.dtype(np.float16): 2e-3, np.dtype(np.float32): 1e-6}.get(np.dtype(dtype), 1e-12)
+    for nm in names:
+        op = get_op(nm)
+        for dt in dts:
+            data = [bool(v % 2) for v in vals] if dt is np.bool_ else vals
+            forms = [("0-d", [np.array(v, dtype=dt) for v in data]), ("numpy-scalar", [dt(v) for v in data]),
+                     ("1-d", [np.array(data, dtype=dt)]), ("2-d", [np.array(data + data[:1], dtype=dt).reshape(2, 3)])]
+            for fname, xs in forms:
+                for x in xs:
+                    got = call(op, x)
+                    ctx.count(f"unary-dtype:{nm}")
+                    if is_exc(got):
+                        ctx.count(f"unary-dtype:array-declines:{nm}:{dt.__name__}")
+                        continue
+                    got = np.asarray(got)
+                    elems = np.asarray(x).ravel().tolist()
+                    if got.shape != np.asarray(x).shape:
+                        continue
+                    tol = tol_of(got.dtype) if got.dtype.kind == "f" else 0.0
+                    for e, g in zip(elems, got.ravel().tolist()):
+                        if dt is np.bool_ and nm in ("invert", "neg", "pos"):
+                            ctx.count("unary-dtype:outside-domain:python-bool-is-int")
+                            continue
+                        if dt is np.uint8 and nm in ("sigmoid", "neg"):
+                            # -x wraps on unsigned data (sigmoid's body is 1 / (1 + exp(-x))): numpy's unsigned
+                            # arithmetic, same class as unsigned subtraction in the binary grid
+                            ctx.count("unary-dtype:outside-domain:unsigned-negation(wraparound)")
+                            continue
+                        want = call(op, e)
+                        if is_exc(want) or isinstance(want, complex) or (isinstance(want, float) and want != want):
+                            ctx.count("unary-dtype:outside-domain:scalar-declines")
+                            continue
+                        if got.dtype.kind in "iu" and not (np.iinfo(got.dtype).min <= want <= np.iinfo(got.dtype).max):
+                            ctx.count("unary-dtype:outside-domain:integer-result-overflow(wraparound)")
+                            continue
+                        if got.dtype.kind == "f" and math.isfinite(float(want)) and abs(float(want)) > float(np.finfo(got.dtype).max):
+                            ctx.count("unary-dtype:outside-domain:result-dtype-overflow")
+                            continue
+                        ctx.count("unary-dtype:cells")
+                        w, gv = float(want), float(g)
+                        if not (gv == w or (tol and math.isfinite(w) and math.isfinite(gv) and abs(gv - w) <= tol * max(1.0, abs(w)))):
+                            src = (f"np.array({hx(e)}, dtype={dtn[dt]})" if fname != "numpy-scalar" else f"{dtn[dt]}({hx(e)})")
+                            ctx.fail("input", f"C15.unary-dtype:{nm}:{dt.__name__}",
+                                     witness=dict(op=nm, dtype=dt.__name__, form=fname, element=jv(e), result_dtype=str(got.dtype)),
+                                     expected=jv(want), got=jv(g),
+                                     python=PRELUDE + f"x = {src}\ng = float(np.asarray(ops.{nm}(x)))\nw = float(ops.{nm}({hx(e)}))\nprint(g, w)\n"
+                                     f"FAILS = not (g == w or abs(g - w) <= {max(tol, 1e-12)} * max(1.0, abs(w)))\n")
+                            break
+                    else:
+                        ctx.case(nontrivial_key=("unary-dtype", nm, dt.__name__, fname, np.asarray(x).tobytes()))
+    # inverse clause: exp(log(x)) = x on positive integer data of every dtype
+    if getattr(ops.exp, "inv", None) is ops.log:
+        for dt in dts:
+            x = np.array([True, True] if dt is np.bool_ else [1, 2, 3, 7], dtype=dt)
+            r = call(lambda: ops.exp(ops.log(x)))
+            ctx.count("unary-dtype:inverse-checks")
+            if is_exc(r):
+                continue
+            r = np.asarray(r, dtype=np.float64)
+            tol = 5e-3 if dt is np.uint8 else 1e-12
+            if not all(abs(a - float(b)) <= tol * max(1.0, float(b)) for a, b in zip(r.tolist(), x.tolist())):
+                ctx.fail("input", f"C15.unary-dtype:exp-log-inverse:{dt.__name__}", witness=dict(x=jv(x.astype(float)), dtype=dt.__name__),
+                         expected=jv(x.astype(float)), got=jv(r),
+                         python=PRELUDE + f"x = np.array({x.tolist()!r}, dtype={dtn[dt]})\nr = np.asarray(ops.exp(ops.log(x)), dtype=float)\nprint(r)\n"
+                         f"FAILS = not all(abs(a - float(b)) <= {tol} * max(1.0, float(b)) for a, b in zip(r.tolist(), x.tolist()))\n")
 
 
 # ---------------------------------------------------------------------------------------
@@ -2340,6 +2497,7 @@ def correspond(ctx):
     bool_semiring(ctx)
     agreement_grid(ctx)
     dtype_grid(ctx)
+    unary_dtype_stream(ctx)
     special_grid(ctx)
     primitive_grid(ctx)
     magnitude_grid(ctx)
@@ -2384,6 +2542,7 @@ def search(ctx, broken):
     for _ in range(3):
         agreement_grid(ctx, volume=2)
         dtype_grid_nodriver(ctx)
+        unary_dtype_stream(ctx)
         special_grid(ctx, use_driver=False, volume=3)
         logsumexp_stream(ctx, 1500, use_driver=False)
         einsum_stream(ctx, 1500, use_driver=False)
